@@ -80,6 +80,7 @@ func (_this *Encoder) OnComment(bool, []byte) {
 }
 
 func (_this *Encoder) OnBeginDocument() {
+	_this.trySmallArrayHeader = false
 	_this.writer.WriteSingleByte(CBESignatureByte)
 }
 
